@@ -78,7 +78,10 @@ Fixpoint parse16_go (cur : pstate) (ls : list string) : option template16 :=
                                               else match strip_suffix (ttt_tag true) txt, strip_suffix (ttt_tag false) txt with
                                                    | Some pre, _ => TableLine pre true       (* the boost::sml table printers *)
                                                    | None, Some pre => TableLine pre false
-                                                   | None, None => InitLine (parse_segs txt)   (* a tag outside blocks: the initial state *)
+                                                   | None, None =>
+                                                       let l := parse_segs txt in
+                                                       if forallb (closed_seg init_keys) l then InitLine l   (* the initial state *)
+                                                       else UserLine l                                      (* user tags *)
                                                    end
                                           | None => Raw l
                                           end)) (parse16_go P0 r)
